@@ -44,6 +44,8 @@ enum Tok {
     S(usize),
     /// allocate N zero-initialised bytes (`vec![0u8; n]`: `GlobalAlloc::alloc_zeroed`)
     Z(usize),
+    /// `GlobalAlloc::realloc` of the top buffer to its own size (raw call: no `Vec` policy in between)
+    R,
     /// keep the top buffer for the call that gets this input (no allocator operation)
     K,
     /// take the oldest kept buffer (no allocator operation)
@@ -126,6 +128,17 @@ fn run_script(toks: &[Tok]) {
                 vec.shrink_to(n);
                 std::hint::black_box(vec.as_mut_ptr());
             }
+            Tok::R => {
+                let vec = stack[sp - 1].take().unwrap();
+                let mut vec = mem::ManuallyDrop::new(vec);
+                let cap = vec.capacity();
+                let layout = std::alloc::Layout::array::<u8>(cap).unwrap();
+                // SAFETY: the block was allocated with this layout by the global allocator.
+                let p = unsafe { std::alloc::realloc(vec.as_mut_ptr(), layout, std::hint::black_box(cap)) };
+                assert!(!p.is_null());
+                std::hint::black_box(p);
+                stack[sp - 1] = Some(unsafe { Vec::from_raw_parts(p, 0, cap) });
+            }
             Tok::K => {
                 sp -= 1;
                 let vec = stack[sp].take().unwrap();
@@ -159,6 +172,7 @@ fn parse_script(s: &str) -> Vec<Tok> {
                 "g" => Tok::G(n.parse().expect("g")),
                 "s" => Tok::S(n.parse().expect("s")),
                 "z" => Tok::Z(n.parse().expect("z")),
+                "r" => Tok::R,
                 "k" => Tok::K,
                 "t" => Tok::T,
                 _ => panic!("bad script token {t}"),
